@@ -93,6 +93,14 @@ where
             ct.encrypt_sk(m, w.a, &c.sk_glwe, &enc, &mut xe, &mut xa, scratch.borrow());
             let mut p1: Prep<B> = FheUintPrepared::alloc_from_infos(m, &ggsw_infos);
             let mut pt: Prep<B> = FheUintPrepared::alloc_from_infos(m, &ggsw_infos);
+            if w.seed & 1 == 1 {
+                // receivers that already hold another prepared word: the bits outside the range must be cleared, not kept
+                let mut other: FheUint<Vec<u8>, u32> = FheUint::alloc_from_infos(&glwe_infos);
+                other.encrypt_sk(m, !w.a ^ w.b, &c.sk_glwe, &enc, &mut Source::new(seed32(w.seed, 3)), &mut Source::new(seed32(w.seed, 4)), scratch.borrow());
+                m.fhe_uint_prepare_custom_multi_thread(8, &mut p1, &other, 0, 32, &c.bdd_key, scratch.borrow());
+                m.fhe_uint_prepare_custom_multi_thread(8, &mut pt, &other, 0, 32, &c.bdd_key, scratch.borrow());
+                classes.push("receiver_held_another_word".into());
+            }
             m.fhe_uint_prepare_custom(&mut p1, &ct, start, count, &c.bdd_key, scratch.borrow());
             m.fhe_uint_prepare_custom_multi_thread(threads.max(2), &mut pt, &ct, start, count, &c.bdd_key, scratch.borrow());
             // observe every prepared bit through the identity circuit: equal GGSW bits give equal output bytes
@@ -197,4 +205,4 @@ pub fn replay(ctx: &Ctx, sub: &str, case: &serde_json::Value) -> i32 {
     ctx.replay_case::<Case, _>(sub, case, test)
 }
 
-pub const RULE: &str = "cases = (backend in FFT64Ref/FFT64Avx/NTT120Ref, kind in {word op *_multi_thread, fhe_uint_prepare_custom_multi_thread over every (start, count) class, 2..7 harness threads sharing one Module + prepared keys + read-only operands with mixed word operations}, thread counts 2..33 and 64/66 (not dividing / exceeding the 32 work items), generated operands and seeds); all cases run while 15 other cases execute concurrently (oversubscription). Oracle: ciphertext bytes equal to the single-threaded / solo run; partial preparation additionally decrypts to the selected bits. non-trivial: every case.";
+pub const RULE: &str = "cases = (backend in FFT64Ref/FFT64Avx/NTT120Ref, kind in {word op *_multi_thread, fhe_uint_prepare_custom_multi_thread over every (start, count) class into fresh receivers and into receivers that hold another prepared word, 2..7 harness threads sharing one Module + prepared keys + read-only operands with mixed word operations}, thread counts 2..33 and 64/66 (not dividing / exceeding the 32 work items), generated operands and seeds); all cases run while 15 other cases execute concurrently (oversubscription). Oracle: ciphertext bytes equal to the single-threaded / solo run; partial preparation additionally decrypts to the selected bits. non-trivial: every case.";
